@@ -219,3 +219,53 @@ PROPS['C10'] = {
     'obligations': [],
 }
 M('C10', 'M1.missed_breach', 'missed_breach', 'no interleaving lets add_appointment look the locator up before the block\'s cache update and store the appointment after the block was checked against the database (the cache guard is held across look-up and store)')
+M('C12', 'M2.cv_waiter', 'cv_waiter', 'every thread that can block in Condvar::wait (Carrier::hang_until_bitcoind_reachable) has a waker in another thread (threads: chain-monitor thread = poll_best_tip + listeners; API handler threads)')
+
+# ----------------------------------------------------------------------------------------------- C20
+_cf = 'config::verif_harness::'
+PROPS['C20'] = {
+    'level': 'model_checking',
+    'technique': 'Kani/CBMC on the real Config::{patch_with_options, verify, get_auth_method} and cli_config::Config::patch_with_options',
+    'bounds': 'string settings are concrete markers (the code never inspects them); their presence on the command line follows four concrete patterns (all / none / even / odd fields); '
+              'numeric settings, their presence and all flags are symbolic; verify(): all 8 credential combinations x network names {mainnet, main, testnet, test, regtest, signet, bogus, ""} x any port',
+    'outside': '"file value if present else documented default" is serde\'s #[serde(default)] + toml (trusted, not encoded); structopt parsing of the command line; other network spellings',
+    'assumptions': ['fields are patched independently of each other (straight-line code), so four presence patterns exercise every field both ways',
+                    'alloc::fmt::format is stubbed (error message of an unknown network is not the subject)'],
+    'models': [],
+    'harness_timeout': {'quick': 600, 'thorough': 900},
+    'obligations': [],
+}
+for _n in ('all', 'none', 'even', 'odd'):
+    K('C20', 'K1.patch.%s_present' % _n, 'teos', _cf + 'c20_patch_%s_present' % _n,
+      'patch_with_options, string options %s present: every setting = CLI value if given else file value; debug/deps_debug/tor_support = file OR CLI; overwrite_key/force_update = CLI only' % _n,
+      'quick' if _n in ('even', 'odd') else 'thorough')
+for _n in ('mainnet', 'main', 'testnet', 'test', 'regtest', 'signet', 'bogus', 'empty'):
+    K('C20', 'K2.verify.%s' % _n, 'teos', _cf + 'c20_verify_%s' % _n,
+      'verify() on network "%s" for all 8 credential combinations and any port: Ok <=> exactly one auth method and known network; default port iff port == 0; auth-method truth table' % _n,
+      'quick' if _n in ('mainnet', 'regtest', 'bogus', 'signet') else 'thorough')
+K('C20', 'K4.cli_config', 'teos', _cf + 'c20_cli_config_patch', 'teos-cli Config::patch_with_options: CLI over file for both fields')
+
+# ----------------------------------------------------------------------------------------------- plugin (Engine M only)
+PLUGIN_ASSUME = ['MIR of the watchtower-client binary and of the watchtower_plugin library, regenerated from the current tree; paths enumerated with loops unrolled twice, unwind edges not followed, branch outcomes unconstrained except where a branch tests the result of the call named in the obligation',
+                 'z3 and cvc5 must agree; any solver error is inconclusive']
+PROPS['C05'] = {
+    'level': 'model_checking',
+    'technique': 'Engine M must-call query on the MIR of the commitment-revocation hook (all paths between a tower\'s reply and the next tower), decided by z3/cvc5',
+    'bounds': 'one arbitrary tower iteration (loop unrolled twice), all paths of the lowered async state machine between the Ready edge of http::add_appointment and the next suspension / iteration / return',
+    'outside': 'SIGKILL at arbitrary moments (sqlite durability), the retrier path (Retrier::run), duplicate notifications (WTClient bookkeeping methods themselves are not encoded), several towers sharing state, the plugin protocol and reqwest: only the notification-path bookkeeping step is claimed',
+    'assumptions': PLUGIN_ASSUME,
+    'models': [],
+    'obligations': [],
+}
+M('C05', 'M1.must_record', 'plugin_must_record', 'for every tower and every way the request can end, the appointment is recorded exactly once as accepted / pending / invalid or the tower is flagged misbehaving; towers not contacted get it as pending unless they are known to misbehave')
+PROPS['C14'] = {
+    'level': 'model_checking',
+    'technique': 'Engine M guarded-reachability queries on the MIR of register (binary) and send_appointment (library): the trusting action is reachable only through the true edge of the signature comparison',
+    'bounds': 'all CFG paths of the two lowered async functions, loops unrolled twice',
+    'outside': 'JSON decoding of arbitrary bodies (serde_json/reqwest): huge/empty/HTML bodies enter only as error variants; WTClient::add_update_tower\'s "strictly extends" rule and flag_misbehaving_tower\'s persistence (not encoded); the signature check itself is libsecp256k1',
+    'assumptions': PLUGIN_ASSUME,
+    'models': [],
+    'obligations': [],
+}
+M('C14', 'M1.register_verify', 'plugin_register_verify', 'register reaches WTClient::add_update_tower only on paths on which RegistrationReceipt::verify(&tower_id) returned true')
+M('C14', 'M2.send_appointment', 'plugin_send_appointment', 'send_appointment yields Ok only on paths on which the id recovered from the tower signature equals the tower id; plus witness of F12 (recovered key unwrap()ed)')
